@@ -13,14 +13,14 @@ RELS = [M + f for f in ('match_past_relations', 'match_future_child', 'match_fut
                         'match_subselectors')]
 HUB = [M + 'match_selectors']
 ENTRY = [M + f for f in ('match', 'select', 'closest', 'filter', 'match_scope')]
-SHARDS = {'match_selectors': 16, 'match_nth': 4, 'match_range': 8, 'match_default': 8, 'match_lang': 16, 'extended_language_filter': 8, 'match_past_relations': 4, 'match_future_relations': 4, 'parse_value': 8}
+SHARDS = {'match_selectors': 16, 'match_nth': 4, 'match_range': 8, 'match_default': 8, 'match_lang': 16, 'match_indeterminate': 4, 'extended_language_filter': 8, 'match_past_relations': 4, 'match_future_relations': 4, 'parse_value': 8}
 A_PY = 'A-py (E1-E6: Python evaluation semantics assumed by the encoding; ints mathematical)'
 A_BS4 = 'A-bs4 (bs4 object model: parent/contents/sibling links, node kinds, attribute views; accessors side-effect free)'
 A_IR = 'A-ir (IR values are finite and acyclic; matcher contracts quantify over well-formed IR: ir_wf_list)'
 A_SMT = 'A-smt (z3 5.1 / cvc5 1.0.3 answer unsat only when true)'
 A_RE = 'A-re (CPython re accepts exactly the translated language of the patterns involved)'
 OPAQUE_NOTE = ('contracts assumed, not yet discharged by pyvc (their bodies are covered only by the bounded tier): normalize_value, split_namespace, create_fake_parent, '
-               'get_descendants (iframe-skipping walk), match_indeterminate, match_dir; '
+               'get_descendants (iframe-skipping walk), match_dir; '
                ' termination of the mutual recursion through sub-lists rests on A-ir')
 
 ALL_HTML = ['basic', 'nows', 'multiroot', 'forms', 'ranges', 'lang', 'dir', 'iframe', 'text', 'attrs', 'identical']
@@ -55,3 +55,15 @@ CACHE = [M + 'match_default', N + 'get_tag_descendants', 'lemma.C04_cache_snoc_b
 LANG = [M + 'match_lang', 'lemma.C04_lang_snoc_base', 'lemma.C04_lang_snoc_step']
 A_SINGLE = ('A-bs4-single (language, http-equiv and content attributes hold one string, as every shipped tree builder stores them: '
             'a builder configured with multi_valued_attributes for them is outside the domain)')
+
+INDET = [M + 'match_indeterminate', M + 'match_indeterminate.get_parent_form', 'lemma.C04_indet_snoc_base', 'lemma.C04_indet_snoc_step',
+         'lemma.C17_exclude_base', 'lemma.C17_exclude_step', 'lemma.C17_guard_base', 'lemma.C17_guard_step_ns', 'lemma.C17_guard_step_ci']
+A_INDET = ('match_indeterminate assumes that the element asking is not itself a checked member of its radio group. Discharged in pieces: structural obligations '
+           'C17.S-indet-flag/-guard/-only/-hub-order (the flag exists only on the compound of CSS_INDETERMINATE that also carries :not([checked]), whose sub-lists the hub '
+           'evaluates first) and lemmas C17_guard_* (an element without a `checked` attribute under the selector\'s name comparison is never a checked member); '
+           'their composition (unfolding sem_list on that one concrete sub-list) is argued in DESIGN.md, not machine-checked')
+
+
+def indet_structural(ctx):
+    from pyvc import structural
+    return structural.C17_indet_guard(ctx)
